@@ -58,7 +58,7 @@ THROW_TRIAGE = {
     ("utils.ast:potentially_unifying", "lhs.ast_type in terms"): "arguments are elements of tuple/term sequences: the set lists all seven term kinds of the grammar",
     ("utils.ast:potentially_unifying", "rhs.ast_type in terms"): "see lhs",
     ("utils.ast:collect_binding_information_body", "stm.atom.ast_type != ASTType.Aggregate"): "old-style aggregates in bodies are converted by preprocess (replace_old_aggregates) before any pass runs",
-    ("utils.ast:TranslationMap.translate_parameters", "len(arguments) > index"): "mapping indices are positions of the new predicate's argument list, which is at least as long (built from rest_vars + [max_var])",
+    ("utils.ast:TranslationMap.translate_parameters", "len(arguments) > index"): "translations are only registered for heads that contain every argument of the new predicate (rule C12.store-head), so the head has at least as many arguments as the largest mapped index",
     ('cleanup:CleanupTranslator._create_mappings', 'cond.ast_type == ASTType.Literal'): 'callers pass conditions of head elements (grammar: Literal*) or the result of _collect_top_level_body_symbols, which yields Literals only',
     ('cleanup:CleanupTranslator._compute_local_superseed', 'rule.ast_type == ASTType.Rule'): 'rule ids in pred2rules are statements for which headderivable_predicates yielded, which happens for Rules only',
     ('dependency:DomainPredicates.add_domain_rules.<locals>.replace_domain', 'atom.ast_type == ASTType.SymbolicAtom'): "only called through transform_ast(cond, 'SymbolicAtom', ...)",
